@@ -227,6 +227,8 @@ impl FeoxStore {
             );
             let new_value = current_value.saturating_add(delta);
             let timestamp = explicit_timestamp.unwrap_or_else(|| self.get_timestamp(key));
+            #[cfg(feature = "verif")]
+            crate::verif::sched("incr.before_swap", 0, 0);
 
             match self.hash_table.entry(key_vec.clone()) {
                 scc::hash_map::Entry::Occupied(mut entry) => {
@@ -270,6 +272,8 @@ impl FeoxStore {
                             }
                         }
 
+                        #[cfg(feature = "verif")]
+                        crate::verif::sched("update.before_enqueue", 0, 0);
                         if let Some(write_buffer) = &self.write_buffer {
                             write_buffer.add_replacement(record, old_record)?;
                         }
@@ -319,6 +323,8 @@ impl FeoxStore {
             scc::hash_map::Entry::Vacant(entry) => {
                 let record_size = self.calculate_record_size(key.len(), value.len());
                 let reservation = self.reserve_memory(record_size)?;
+                #[cfg(feature = "verif")]
+                crate::verif::sched("mem.reserved.locked", record_size as u64, 0);
 
                 let timestamp = self.get_timestamp(key);
                 let record = Arc::new(Record::new(key_vec.clone(), value.to_vec(), timestamp));
@@ -497,6 +503,8 @@ impl FeoxStore {
         };
 
         let timestamp = self.resolve_timestamp(key, timestamp);
+        #[cfg(feature = "verif")]
+        crate::verif::sched("cas.before_swap", 0, 0);
         self.replace_record_if_current(
             &key_vec,
             &initial_record,
@@ -571,6 +579,8 @@ impl FeoxStore {
                         }
                     }
 
+                    #[cfg(feature = "verif")]
+                    crate::verif::sched("update.before_enqueue", 0, 0);
                     if let Some(ref wb) = self.write_buffer {
                         wb.add_replacement(new_record, old_record_arc)?;
                     }
